@@ -219,3 +219,87 @@ Proof.
      PcTransmit OpOperate; PcTransmit OpOperate; PcTimeout; PcTransmit OpOperate].
   eexists. split; vm_compute; reflexivity.
 Qed.
+
+(* ====================================================================================================
+   C08 (phase 3): the histories of the DP MASTER.
+
+   Proofs/DpMasterHistory.v: `d_run pa bufsize m0 cs []` runs ANY list of calls -- the FdlApplication
+   callbacks transmit_telegram / receive_reply / handle_timeout and the user calls request_diagnostics(),
+   pi_q writes, enter_state(), take_last_events() -- on the model of DpMaster (DpMaster.v) from ANY master
+   state m0 (any number of slots and peripherals, dense or sparse storage, any cycle position), returning
+   the outputs `outs` and a LOG of (slot index, wire event) pairs; `contract_m` is the FdlApplication
+   contract (C15) over calls and outputs: after a transmit_telegram that returned a request expecting a
+   reply from da, at most one of receive_reply(da, _) / handle_timeout(da) -- or nothing (token given up) --
+   before the next transmit_telegram; user calls anywhere.  (Peripherals are added before the history
+   starts.)  State and outputs of `d_step` are by definition those of the model functions. *)
+From PB Require Import DpMaster DpMasterHistory.
+
+(* Every contract-respecting master history projects, for EVERY slot, to a contract-respecting history of
+   that slot's peripheral: so all theorems above with the hypothesis `history pa a o tr` hold for
+   tr = proj k log, for every peripheral of every master history (any peripheral count). *)
+Theorem C08_master_histories_project : forall pa bufsize m0 cs m' outs log,
+  d_run pa bufsize m0 cs [] = Ok (m', outs, log) ->
+  contract_m None outs = true ->
+  (forall k p0, slot m0 k = Some p0 ->
+     exists pcs pk, p_run pa p0 pcs = Ok (pk, proj k log) /\ contract_p false (proj k log) = true /\
+                    slot m' k = Some pk) /\
+  (forall k a o i q d, slot m0 k = Some (periph_new a o i q d) -> history pa a o (proj k log)).
+Proof. exact master_projects_both. Qed.
+Print Assumptions C08_master_histories_project.
+
+(* the log-keeping copy of the slot loop computes exactly what the model's dp_tx_loop computes *)
+Theorem C08_master_log_is_model : forall fuel pa bufsize m pev log,
+  erase3 (tx_loop_log fuel pa bufsize m pev log) = dp_tx_loop fuel pa bufsize m pev.
+Proof. exact tx_loop_log_erase. Qed.
+Print Assumptions C08_master_log_is_model.
+
+(* and the log is faithful to what is observable: one transmit_telegram call appends only transmit outcomes;
+   if it returns bytes and expects a reply from da, the last new entry is a request whose encoding is exactly
+   these bytes and whose destination is da, and no other request is logged; otherwise no request is logged;
+   every logged event is the peripheral event left for take_last_events(), with that slot's handle *)
+Theorem C08_master_log_faithful : forall pa bufsize m now hp log m' o log',
+  d_step pa bufsize m (DcTransmit now hp) log = Ok (m', DoTx o, log') ->
+  exists new, log' = log ++ new /\
+    (forall x, In x new -> match snd x with WReq _ _ | WIdle | WEvent _ => True | _ => False end) /\
+    match o with
+    | Some (w, Some da) =>
+        exists pre k h pdu, new = pre ++ [(k, WReq h pdu)] /\ existsb log_is_req pre = false /\
+          encode_data_in bufsize h pdu = Ok w /\ da = h_da h
+    | _ => existsb log_is_req new = false
+    end /\
+    (forall k ev, In (k, WEvent ev) new ->
+       exists hd, ev_peripheral (dm_events m') = Some (hd, ev) /\ hd_index hd = k).
+Proof. exact transmit_log_link. Qed.
+Print Assumptions C08_master_log_faithful.
+
+(* the first clause, spelled out at the master level *)
+Theorem C08_first_master : forall pa bufsize m0 cs m' outs log,
+  1 <= p_max_retry pa ->
+  d_run pa bufsize m0 cs [] = Ok (m', outs, log) ->
+  contract_m None outs = true ->
+  forall k a o i q d, slot m0 k = Some (periph_new a o i q d) ->
+  forall pre h pdu post,
+  proj k log = pre ++ WReq h pdu :: post ->
+  (forall pre1 h1 pdu1 post1, pre = pre1 ++ WReq h1 pdu1 :: post1 -> In (WEvent EvOffline) post1) ->
+  h = mkHeader a (p_address pa) (Some 60) (Some 62) (FcRequest FcbFirst RqSrdLow) /\ pdu = [] /\
+  fc_to_byte (h_fc h) = 108.
+Proof. exact first_request_master. Qed.
+Print Assumptions C08_first_master.
+
+(* non-vacuity: a master with two peripherals (7 answers, 9 is silent), max_retry_limit = 1: the projections
+   of the log *)
+Example C08_master_example :
+  let pa := mkParams 2 B19200 100 32436 10 126 1 11 None in
+  let o := mkOpts 4660 false false 0 100 false (Some [170]) (Some [17]) in
+  let m0 := set_slots (dp_new 2 false) [Some (periph_new 7 o [0] [0] 0); Some (periph_new 9 o [] [] 0)] in
+  let diag := TData (mkHeader 2 7 (Some 62) (Some 60) (FcResponse RsSlave StDataLow)) [0; 0; 0; 2; 18; 52] in
+  let cs := [DcEnter OpOperate; DcTransmit 0 false; DcTransmit 10 false; DcReply 7 diag; DcTake;
+             DcTransmit 20 false; DcTimeout 9; DcTransmit 30 false; DcTransmit 40 false;
+             DcReqDiag (mkHandle 0 7); DcTimeout 7; DcTransmit 50 false] in
+  let prm := WReq (mkHeader 7 2 (Some 61) (Some 62) (FcRequest FcbLow RqSrdLow)) [128; 0; 0; 11; 18; 52; 0; 170] in
+  exists m' outs log,
+    d_run pa 256 m0 cs [] = Ok (m', outs, log) /\ contract_m None outs = true /\
+    proj 0 log = [WReq (mkHeader 7 2 (Some 60) (Some 62) (FcRequest FcbFirst RqSrdLow)) [];
+                  WReply diag (Some EvOnline); prm; WUser; WTimeout; prm] /\
+    proj 1 log = [WReq (mkHeader 9 2 (Some 60) (Some 62) (FcRequest FcbFirst RqSrdLow)) []; WTimeout; WIdle].
+Proof. do 3 eexists. split; [vm_compute; reflexivity|]. split; vm_compute; auto. Qed.
